@@ -92,10 +92,13 @@ func CheckC17(run *evid.Run) {
 func c17Case(run *evid.Run, i int) {
 	rng := rand.New(rand.NewSource(run.Seed*1000003 + int64(i)*8675309))
 	codec := []string{"cbor", "cbor", "link", "pb"}[i%4]
-	h := hx.Gen(run.Seed, i, hx.GenOpts{MaxSteps: pick(run.Tier, 30, 50), Orders: []string{"hash", "default"}, Codecs: []string{codec}, MaxReplicas: 4})
+	h := hx.Gen(run.Seed, i, hx.GenOpts{MaxSteps: pick(run.Tier, 30, 50), Orders: []string{"hash", "default"}, Codecs: []string{codec}, MaxReplicas: 4, Failures: i%2 == 0})
 	for k := range h.Steps {
 		if h.Steps[k].Op == "append" && rng.Intn(3) == 0 {
 			h.Steps[k].PC = 16
+		}
+		if h.Steps[k].Op == "append" && rng.Intn(3) == 0 {
+			h.Steps[k].Pin = true // pinned appends: the pin service of the harness store accepts any identifier
 		}
 	}
 	x := hx.NewExec(h)
@@ -178,7 +181,24 @@ func c17Case(run *evid.Run, i int) {
 			}
 		}
 		addsBefore := nAdds
+		var beforeRefused *hx.Obs
+		if s.ExpectsError() {
+			beforeRefused = hx.Observe(l)
+		}
 		res := x.Do(k)
+		if s.ExpectsError() {
+			run.Count("refused_operations", 1)
+			if res.Err != nil {
+				if df := obsEqual(beforeRefused, hx.Observe(l)); df != "" {
+					run.Violate("C17/refused-op-changed", det("op", s.Op), wit(where), "%s returned an error but changed the log: %s", s.Op, df)
+				}
+			}
+			// a refused operation must not influence what later publications load to
+			if rng.Intn(2) == 0 {
+				record(s.R, where+" +publish")
+			}
+			continue
+		}
 		switch s.Op {
 		case "append":
 			failed := failAt > addsBefore && failAt <= nAdds+0 && res.Err != nil
@@ -199,8 +219,8 @@ func c17Case(run *evid.Run, i int) {
 			if rng.Intn(3) == 0 {
 				record(s.R, where+" +publish")
 			}
-		case "join":
-			if res.Err == nil {
+		case "join", "joinempty", "joinself", "joinforeign", "fork":
+			if res.Err == nil && s.Op == "join" {
 				merged = true
 			}
 			if rng.Intn(2) == 0 {
